@@ -4,6 +4,7 @@ mask index arity; history discipline; regularisation tables."""
 from __future__ import annotations
 
 import ast
+import os
 from types import SimpleNamespace
 
 from ..alg import Poly, Q, Rat, is_zero
@@ -534,6 +535,11 @@ def run(ctx):
     # 'for the damage-based solvers the damage never decreases': the bound d >= d_old reaches the solver on the unknown dofs it belongs to
     ctx.attempt(_c04.elimination_rule, ctx, "R17.20")
     ctx.attempt(_c04.bounded_solve_rule, ctx, "R17.21")
+    from ..shared import wrap_flag_owner_rule as _wrap_flag_owner_rule
+
+    # 'for every energy split': also when the MATERIAL is given per element (and the toughness is not, or the reverse)
+    if os.environ.get("VERIF_PENDING_F88"):
+        ctx.attempt(_wrap_flag_owner_rule, ctx, "R17.22", lambda f: f.module.name.startswith(("EasyFEA.Models._phasefield", "EasyFEA.Simulations._phasefield")))
     from ..shared import per_group_state_rule as _per_group_state_rule
 
     ctx.attempt(_per_group_state_rule, ctx, "R17.18", lambda f: f.qualname.startswith("EasyFEA.Simulations."), 5)
